@@ -437,6 +437,20 @@ func c17FollowUp(w *World, r *SeqRun, desc *c17Desc, crash2 int) *kernel.Violati
 			}
 		}
 	}
+	// What a user does first after a crash: the same thing again (judged by
+	// the model like any other operation: it is applied, or refused where
+	// the first attempt had gone through).
+	switch desc.Victim.Kind {
+	case "delete", "delete-where", "compact", "vector-add", "vector-del":
+		retry := desc.Victim
+		retry.Result = ""
+		if _, ok := r.Br[retry.Branch]; ok && !r.anyVacuumed(r.Br[retry.Branch].Objs) {
+			if v := do(-1, retry); v != nil {
+				return v
+			}
+			w.Out.Probe("victim-operation-retried")
+		}
+	}
 	if v := do(0, Op{Kind: "load", Branch: bname, N: 5}); v != nil {
 		return v
 	}
